@@ -83,7 +83,9 @@ def make_app(reqs, holder=None):
             w = holder[0]
             ch = w.channel
             pend = object.__getattribute__(ch, "total_outbufs_len")
-            target = len(w.wire) + (pend if pend >= max(1, w.adj.send_bytes) else 0)
+            sbytes = max(1, w.adj.send_bytes)
+            # waitress sends while at least send_bytes are pending: fewer than send_bytes may stay behind
+            target = len(w.wire) + (pend - (sbytes - 1) if pend >= sbytes else 0)
             w.sched.yield_(Op("app:wait", target,
                               enabled=lambda: len(w.wire) >= target or not object.__getattribute__(ch, "connected")))
 
